@@ -801,6 +801,19 @@ func (c02) Gen(rng *rand.Rand, tier string, emit func(string)) {
 			}
 		}
 	}
+	// third pass: the extremes of the offsets the setters accept. 14 and 172 are the first and the last offset for which
+	// no quality 0..93 is printed as an end of line (theorems shift_range_ok / shift_outside_range_bad): round trip
+	// demanded; 13, 173, 0, 255, 10 - 93 + 256: the model predicts what the reader makes of the broken quality line
+	for _, sh := range []int{14, 172, 13, 173, 0, 255, 173 + 82, 10, 100, 127, 128, 163} {
+		for q := 0; q < 256; q++ {
+			emit(fmt.Sprintf("q %d %d %d", sh, sh, q))
+		}
+	}
+	for _, p := range [][2]int{{14, 172}, {172, 14}, {0, 255}, {33, 172}, {64, 14}} {
+		for q := 0; q < 256; q += 3 {
+			emit(fmt.Sprintf("q %d %d %d", p[0], p[1], q))
+		}
+	}
 	// every string of length <= L over the 8-symbol hostile alphabet as an annotation value
 	maxl := 3
 	if tier == "thorough" {
@@ -839,6 +852,7 @@ func (c02) Gen(rng *rand.Rand, tier string, emit func(string)) {
 	}
 
 	c02GenExtra(rng, tier, emit)
+	c02GenTxt(rng, tier, emit)
 
 	n := 1500
 	c02MaxDepth = 3
@@ -887,6 +901,12 @@ func (c02) Gen(rng *rand.Rand, tier string, emit func(string)) {
 				so, si = 33, 64
 			case 2:
 				so, si = 64, 33
+			case 3:
+				// third pass: the two extreme offsets of the range in which the round trip is a theorem
+				so, si = 14, 14
+				if rng.Intn(2) == 0 {
+					so, si = 172, 172
+				}
 			}
 			nr := 1
 			if rng.Intn(6) == 0 {
@@ -1091,6 +1111,44 @@ func (c02) Exec(c string) (string, []Fail) {
 		})
 		return strings.TrimSpace(res), fails
 
+	case f[0] == "obirt" && len(f) == 2:
+		return c02ExecObirt(f), fails
+
+	case f[0] == "txt" && len(f) == 4 && (f[1] == "fasta" || f[1] == "fastq"):
+		// third pass: ANY text (several records, blank lines, CR LF, > or @ anywhere, bad symbols, cut anywhere) through
+		// the real chunk parser; the model answers with its state machine (= the structural reading, by theorem)
+		si, e1 := strconv.Atoi(f[2])
+		tb, ok := unhx(f[3])
+		if e1 != nil || !ok || si < 0 || si > 255 {
+			return "bad-op", nil
+		}
+		res := guardT(5*time.Second, func() string {
+			obioptions.SetInputQualityShift(si)
+			sl := c02Parse(f[1], string(tb))
+			var parts []string
+			for _, s := range sl {
+				_, def := c02AnnDigest(s.Annotations())
+				q := "none"
+				if s.HasQualities() {
+					q = hx(s.Qualities())
+				}
+				parts = append(parts, fmt.Sprintf("id=%s seq=%s q=%s def=%s", hx([]byte(s.Id())), hx(s.Sequence()), q, def))
+			}
+			return strconv.Itoa(len(sl)) + " " + strings.Join(parts, " | ")
+		})
+		res = strings.TrimSpace(res)
+		switch {
+		case res == "fatal" || res == "panic" || res == "hang":
+			stat("txt:" + f[1] + ":" + res)
+		case strings.HasPrefix(res, "0"):
+			stat("txt:" + f[1] + ":no-record")
+		case strings.HasPrefix(res, "1 "):
+			stat("txt:" + f[1] + ":1-record")
+		default:
+			stat("txt:" + f[1] + ":several-records")
+		}
+		return res, fails
+
 	case f[0] == "q" && len(f) == 4:
 		so, e1 := strconv.Atoi(f[1])
 		si, e2 := strconv.Atoi(f[2])
@@ -1113,7 +1171,8 @@ func (c02) Exec(c string) (string, []Fail) {
 			}
 			return strconv.Itoa(int(sl[0].Qualities()[0]))
 		})
-		if so == si {
+		if so == si && so >= 14 && so <= 172 {
+			stat("q:in-range-offset")
 			want := q
 			if want > 93 {
 				want = 93
@@ -1296,4 +1355,100 @@ func (c02) Exec(c string) (string, []Fail) {
 		return res, fails
 	}
 	return "bad-op", nil
+}
+
+// c02GenTxt (third pass): texts for the chunk parsers that no writer prints
+func c02GenTxt(rng *rand.Rand, tier string, emit func(string)) {
+	for _, t := range []string{"", ">", "> a\nac", ">a", ">a\n", ">a\nac", ">a\nac\n>", ">a\nac\n>b", ">a\nac\n>b\n", ">a\nac\n>b\ng", ">a\nac>b\ng",
+		">a x\r\nAC\r\ngt\r\n\r\n>b\ty  z \r\n\r\nn-[.]\r\n", ">a\n\n\n", ">a\n ac", ">a\nac gt\n", ">a\n>b\nac", ">a >b\nac\n>c d>e\ng\n", ">a\nac\n\r>b\rg",
+		">a\nac\n >b\ng", ">a\nac\n>\nb", ">a\nac\n> b\ng", ">a\na1c", "a\nac", ">a\nAC*\n", ">é x\nac\n>é\nac", ">a\nac\n>b\n\n>c\ng"} {
+		emit("txt fasta 33 " + hx([]byte(t)))
+	}
+	for _, t := range []string{"", "@", "@a", "@a\n", "@a\nac", "@a\nac\n", "@a\nac\n+", "@a\nac\n+\n", "@a\nac\n+\nII", "@a\nac\n+\nII\n", "@a\nac\n+\nII\n@",
+		"@a\nac\n+\nII\n@b\ng\n+\nJ", "@a\nac\n+\nII\n@b\ng\n+\nJ\n", "@a\nac\n+\nI\n", "@a\nac\n+\nIII\n", "@a\nac\n+\n\n@b\n", "@a x\r\nAc\r\n\r\n+a x\r\nII\r\n\r\n@b\r\ng\r\n+\r\n@\r\n",
+		"@a\n1c\n+\nII\n", "@a\na1\n+\nII\n", "@a\n>c\n+\nII\n", "@a\nac\n-\nII\n", "@a\nac\n+\nII\nb", "@a\nac\n+\n@I\n@b\ng\n+\n@\n", "@a\n\n\nac\n\n+\n\nII\n\n\n@b\ng\n+\nI",
+		"@a\n ac\n+\nIII\n", "@ a\nac\n+\nII\n", "a\nac\n+\nII\n", "@a\nac\n+\nI I\n", "@a\nac\n+\nII\n\n@b  y \ngt\n+ z\n!~\n"} {
+		for _, si := range []string{"33", "64"} {
+			emit("txt fastq " + si + " " + hx([]byte(t)))
+		}
+	}
+	// every text of length <= L over a small alphabet: each state of the machines on each class of byte
+	la, lq := 5, 5
+	if tier == "thorough" {
+		la, lq = 6, 6
+	}
+	var rec func(fm string, alpha []string, cur string, l int)
+	rec = func(fm string, alpha []string, cur string, l int) {
+		if len(cur) == l {
+			emit("txt " + fm + " 33 " + hx([]byte(cur)))
+			return
+		}
+		for _, c := range alpha {
+			rec(fm, alpha, cur+c, l)
+		}
+	}
+	for l := 1; l <= la; l++ {
+		rec("fasta", []string{">", "a", "\n", " ", "1"}, ">", l+1)
+	}
+	for l := 1; l <= lq; l++ {
+		rec("fastq", []string{"@", "a", "\n", " ", "+", "1"}, "@", l+1)
+	}
+	// random texts: records assembled from pieces, then damaged
+	n := 600
+	if tier == "thorough" {
+		n = 6000
+	}
+	eols := []string{"\n", "\n", "\n", "\r\n", "\r", "\n\n", "\n\r\n"}
+	seqs := []string{"a", "acgt", "ACGT", "AcGtNn", "n-[.]", "ryswkmbdhv", strings.Repeat("acgtn", 12), strings.Repeat("a", 61)}
+	for i := 0; i < n; i++ {
+		fm := []string{"fasta", "fastq"}[rng.Intn(2)]
+		var b strings.Builder
+		for r := 1 + rng.Intn(4); r > 0; r-- {
+			eol := func() string { return eols[rng.Intn(len(eols))] }
+			if fm == "fasta" {
+				b.WriteString(">")
+			} else {
+				b.WriteString("@")
+			}
+			b.WriteString([]string{"s1", "x", "a>b", "@q", "é", "id|1#2"}[rng.Intn(6)])
+			b.WriteString([]string{"", " ", "\t", "  d e ", " {\"a\":1}", " >x @y", "\t \td  "}[rng.Intn(7)])
+			b.WriteString(eol())
+			sq := ""
+			for k := 1 + rng.Intn(3); k > 0; k-- {
+				piece := seqs[rng.Intn(len(seqs))]
+				sq += piece
+				b.WriteString(piece)
+				if fm == "fasta" {
+					b.WriteString([]string{"", " ", "\t"}[rng.Intn(3)/2*rng.Intn(3)])
+					b.WriteString(eol())
+				}
+			}
+			if fm == "fastq" {
+				b.WriteString(eol() + "+" + []string{"", "s1", " x"}[rng.Intn(3)] + eol())
+				ql := len(sq)
+				if rng.Intn(12) == 0 {
+					ql += rng.Intn(3) - 1
+				}
+				for k := 0; k < ql; k++ {
+					b.WriteByte(byte(33 + rng.Intn(94)))
+				}
+				b.WriteString(eol())
+			}
+		}
+		t := []byte(b.String())
+		switch rng.Intn(5) {
+		case 0: // cut anywhere
+			t = t[:rng.Intn(len(t)+1)]
+		case 1: // one byte replaced
+			if len(t) > 0 {
+				dmg := []byte(">@+\n\r 1*aA\t\x00\xff")
+				t[rng.Intn(len(t))] = dmg[rng.Intn(len(dmg))]
+			}
+		case 2: // one byte inserted
+			k := rng.Intn(len(t) + 1)
+			ins := []byte(">@+\n\r 1*aA\t")
+			t = append(t[:k:k], append([]byte{ins[rng.Intn(len(ins))]}, t[k:]...)...)
+		}
+		emit(fmt.Sprintf("txt %s %d %s", fm, []int{33, 33, 64}[rng.Intn(3)], hx(t)))
+	}
 }
